@@ -137,6 +137,9 @@ pub mod shims {
             requires
                 // challenge hooks are run only for the authorization just fetched, and only while it is pending
                 old(w).cur_auth matches Some(a) && a.pending && a.identifier == identifier@ && a.wildcard == wildcard, //@C05.challenge_hooks_only_for_the_pending_authorization_being_solved
+                // the hooks get the file name and the proofs of one and the same challenge, computed for one key, each in its own place
+                exists|c: structs::Challenge, k: KeyPair| file_name@ == structs::file_name_of(c) && proof@ == structs::proof_text_of(c, k)
+                    && structs::opt_text(raw_proof) == structs::raw_proof_of(c, k), //@C05.challenge_hooks_get_the_file_name_and_the_proofs_of_the_challenge,C10.challenge_hooks_get_the_file_name_and_the_proofs_of_the_challenge
             ensures
                 final(w).cur_auth == old(w).cur_auth, final(w).downloaded == old(w).downloaded, final(w).key_written == old(w).key_written,
                 final(w).cert_written == old(w).cert_written, final(w).pair_installed == old(w).pair_installed, final(w).disk_key == old(w).disk_key,
@@ -161,9 +164,15 @@ pub mod shims {
         verus! {
         pub struct TokenChallenge { pub url: String, pub token: String }
         pub enum Challenge { Http01(TokenChallenge), Dns01(TokenChallenge), TlsAlpn01(TokenChallenge), Unknown }
+        pub uninterp spec fn proof_text_of(c: Challenge, k: KeyPair) -> Seq<char>;
+        pub uninterp spec fn raw_proof_of(c: Challenge, k: KeyPair) -> Option<Seq<char>>;
+        pub uninterp spec fn file_name_of(c: Challenge) -> Seq<char>;
+        pub open spec fn opt_text(o: Option<String>) -> Option<Seq<char>> { match o { Some(s) => Some(s@), None => None } }
         impl Challenge {
-            #[verifier::external_body] pub fn get_proof(&self, k: &KeyPair) -> Result<(String, Option<String>), Error> { unimplemented!() }
-            #[verifier::external_body] pub fn get_file_name(&self) -> String { unimplemented!() }
+            // (verified in unit chalproof: the values RFC 8555 section 8 / RFC 8737 prescribe for the token and the key)
+            #[verifier::external_body] pub fn get_proof(&self, k: &KeyPair) -> (r: Result<(String, Option<String>), Error>)
+                ensures r matches Ok(t) ==> t.0@ == proof_text_of(*self, *k) && opt_text(t.1) == raw_proof_of(*self, *k) { unimplemented!() }
+            #[verifier::external_body] pub fn get_file_name(&self) -> (r: String) ensures r@ == file_name_of(*self) { unimplemented!() }
             #[verifier::external_body] pub fn get_url(&self) -> String { unimplemented!() }
         }
         #[derive(PartialEq)]
